@@ -5,7 +5,7 @@
 from typing import List, Union, Optional, Set
 
 from metasequoia_sql.errors import SqlParseError
-from metasequoia_sql.lexical import AMTBase, AMTMark
+from metasequoia_sql.lexical import AMTBase, AMTMark, AMTSingle
 
 __all__ = ["TokenScanner"]
 
@@ -220,15 +220,22 @@ class TokenScanner:
         """不移动指针，并返回当前指针位置的插入语节点的子节点的扫描器"""
         return TokenScanner(self.get_offset().children)
 
+    def _pop_as_parenthesis(self) -> AMTBase:
+        """将指针向后移动 1 个元素，并返回当前指针位置的插入语节点；如果当前指针位置不是插入语节点，则抛出异常"""
+        node = self.pop()
+        if isinstance(node, AMTSingle):
+            raise SqlParseError(f"当前指针位置不是插入语节点：{node}")
+        return node
+
     def pop_as_children_scanner(self) -> "TokenScanner":
         """将指针向后移动 1 个元素，并返回当前指针位置的插入语节点的子节点的扫描器"""
-        return TokenScanner(self.pop().children)
+        return TokenScanner(self._pop_as_parenthesis().children)
 
     def pop_as_children_scanner_list_split_by(self, source: str) -> List["TokenScanner"]:
         """将指针向后移动一个元素，并返回当前指针位置的插入语结点的子节点使用 source 分隔的扫描器列表"""
         result = []
         tokens = []
-        for token in self.pop().children:
+        for token in self._pop_as_parenthesis().children:
             if token.equals(source):
                 if len(tokens) > 0:
                     result.append(TokenScanner(tokens))
